@@ -100,8 +100,7 @@ def mutate(g, data, corpus, dictionary, max_len=65536):
 def keyword_dictionary(tool, args_for_dsl, dsls, env):
     """@Keywords of every DSL, read from the binary itself"""
     out = set()
-    for dsl in dsls:
-        r = vfcore.run([tool] + args_for_dsl(dsl), timeout=60, env=env)
+    for r in vfcore.pmap(lambda dsl: vfcore.run([tool] + args_for_dsl(dsl), timeout=300, env=env), dsls):
         for m in re.finditer(r"(@[A-Za-z_0-9]+)", r.out + r.err):
             out.add(m.group(1).encode())
     return sorted(out)
